@@ -127,6 +127,13 @@ func genC08(rt *rapid.T) c08Case {
 		m.Again = c.API == "reader" && !m.Late && rapid.IntRange(0, 2).Draw(rt, "sameLimitAgainMidMessage") == 0
 		c.Msgs = append(c.Msgs, m)
 	}
+	if underFuzzEngine && c.Buf < 512 {
+		for _, m := range c.Msgs {
+			if m.Size > 200000 {
+				c.Buf = 4096 // not millions of tiny reads inside the fuzz engine's 10 s per input
+			}
+		}
+	}
 	if rapid.IntRange(0, 4).Draw(rt, "huge") == 0 && c.API != "wsjson" {
 		c.Huge = &c08Huge{
 			Declared: rapid.SampledFrom([]uint64{1 << 32, 1<<32 + 5, 1<<62 + 12345, 1<<63 - 1, 1 << 40}).Draw(rt, "declared"),
